@@ -13,6 +13,8 @@ prop="${1:-}"; mode="${2:-}"
 
 SCR="$(mktemp -d "${TMPDIR:-/tmp}/snessim.XXXXXX")" || exit 2
 trap 'rm -rf "$SCR"' EXIT
+# evidence is only written for runs against /repo itself
+[ "$REPO" = "/repo" ] || export SIM_EVIDENCE_DIR="$SCR/evidence"
 
 rsync -a --exclude .git "$REPO"/ "$SCR/snes"/ || { echo "run.sh: copy failed" >&2; exit 2; }
 [ -x "$VERIF/bin/instrument" ] || (cd "$VERIF" && go build -o bin/instrument ./cmd/instrument) || { echo "run.sh: building instrument failed" >&2; exit 2; }
